@@ -58,7 +58,21 @@ func scratchBase() string {
 	return "/dev/shm"
 }
 
+// newVDaemon starts the daemon; listeners are bound to free loopback ports found a moment earlier, which another process can
+// grab in between when many shards run: the start is tried up to three times.
 func newVDaemon(t testing.TB, seed uint64, specs []vChainSpec, storage chain.StorageType, keepLogs bool) (*vDaemon, error) {
+	var v *vDaemon
+	var err error
+	for attempt := 0; attempt < 3; attempt++ {
+		if v, err = newVDaemonOnce(t, seed, specs, storage, keepLogs); err == nil {
+			return v, nil
+		}
+		time.Sleep(50 * time.Millisecond)
+	}
+	return nil, err
+}
+
+func newVDaemonOnce(t testing.TB, seed uint64, specs []vChainSpec, storage chain.StorageType, keepLogs bool) (*vDaemon, error) {
 	dir, err := os.MkdirTemp(scratchBase(), "vdaemon")
 	if err != nil {
 		return nil, err
